@@ -64,6 +64,8 @@ type envCfg struct {
 	Proto string // connect | grpc | grpcweb
 	Max   int
 	Algo  string // "" | tagA | tagB | rle
+	// ExplicitIdentity: with no Algo, name the identity encoding in the header instead of omitting it
+	ExplicitIdentity bool `json:",omitempty"`
 }
 
 func (c envCfg) coqProto() string {
@@ -159,6 +161,8 @@ func serveStream(cfg envCfg, body *h.ChunkBody) (obs []obsItem, rec *httptest.Re
 	req.Header.Set("Content-Type", cfg.contentType(false))
 	if cfg.Algo != "" {
 		req.Header.Set(cfg.encodingHeader(false), cfg.Algo)
+	} else if cfg.ExplicitIdentity {
+		req.Header.Set(cfg.encodingHeader(false), "identity")
 	}
 	rec = httptest.NewRecorder()
 	panicked = safely(func() { handler.ServeHTTP(rec, req) })
@@ -189,6 +193,8 @@ func serveUnary(cfg envCfg, body *h.ChunkBody) (obs obsItem, rec *httptest.Respo
 	req.Header.Set("Content-Type", cfg.contentType(true))
 	if cfg.Algo != "" {
 		req.Header.Set(cfg.encodingHeader(true), cfg.Algo)
+	} else if cfg.ExplicitIdentity {
+		req.Header.Set(cfg.encodingHeader(true), "identity")
 	}
 	rec = httptest.NewRecorder()
 	panicked = safely(func() { handler.ServeHTTP(rec, req) })
@@ -231,6 +237,9 @@ func envRun(r *h.Run, fam string, cfg envCfg, parseOK bool, chunks [][]byte, fin
 		r.Case(fam, fmt.Sprintf("HRecv %s %d %s %s %s %s %s", cfg.coqProto(), cfg.Max, cfg.coqAlgo(), h.CoqBool(parseOK),
 			h.CoqBytesList(chunks), fin.Coq(), h.CoqList(items)),
 			map[string]any{"cfg": cfg, "body_hex": h.Hex(flat), "chunk_sizes": chunkSizes(chunks), "fin": fin.Coq(), "impl_observed": obsStrings(obs), "what": desc})
+	}
+	if obs == nil {
+		obs = []obsItem{} // nil is reserved for "panicked": user code that never ran observed nothing
 	}
 	return obs
 }
